@@ -43,7 +43,7 @@ def main():
     meta = {"property": pid, "seed": letter, "tier": tier, "checks_run": props}
     if not os.path.isdir(WT):
         sh("git -C /repo worktree prune; git -C /repo worktree add --detach %s" % WT)
-    sh("git -C %s checkout -q -- . && git -C %s clean -fdq && git -C %s checkout -q --detach $(git -C /repo rev-parse HEAD)" % (WT, WT, WT))
+    sh("git -C %s reset -q --hard && git -C %s clean -fdq && git -C %s checkout -q --detach $(git -C /repo rev-parse HEAD)" % (WT, WT, WT))
     rc, out = sh("git apply %s" % patch, cwd=WT)
     if rc != 0:
         # /repo has moved on (fix: commits): try a 3-way application and keep the rebased patch
